@@ -78,6 +78,10 @@ impl World {
         let account_id = *d0.bridge.account.lock().await.account_id();
         let server = Server::new(&base.join("server"), account_id, sdb).await;
         drop(d0);
+        if cdb {
+            // let the SQLite connection thread of the dropped client finish
+            tokio::time::sleep(std::time::Duration::from_millis(60)).await;
+        }
         // re-open device 0 bound to the real server object, and copy its data for the others
         let mut devs = vec![];
         for i in 1..ndev {
